@@ -294,6 +294,11 @@ impl CaseCtx {
     pub fn known(&mut self, id: &str) {
         self.known_hits.push(id.to_string());
     }
+    /// infrastructure trouble while evaluating this case (server died, timeout): the run becomes
+    /// inconclusive (exit 2); never a violation
+    pub fn infra(&mut self, msg: impl std::fmt::Display) {
+        self.classes.push(format!("INFRA: {msg}"));
+    }
 }
 
 #[derive(Default, Debug)]
@@ -494,6 +499,10 @@ impl Run {
     }
 
     pub fn add_stats(&mut self, st: CheckStats) {
+        for (k, n) in st.classes.iter().filter(|(k, _)| k.starts_with("INFRA")) {
+            self.infra_problems
+                .push(format!("check {}: {k} ({n}x)", st.name));
+        }
         let hits: Vec<String> = st.known_hits.keys().cloned().collect();
         for k in hits {
             self.note_known(&k);
